@@ -196,3 +196,16 @@ impl Stream for ActiveRequests {
         }
     }
 }
+
+#[cfg(feature = "verif-hooks")]
+impl ActiveRequests {
+    pub(super) fn verif_iter(&self) -> impl Iterator<Item = (&NodeAddress, &RequestCall)> {
+        self.active_requests_mapping
+            .iter()
+            .flat_map(|(addr, calls)| calls.iter().map(move |call| (addr, call)))
+    }
+
+    pub(super) fn verif_deadline(&self, nonce: &MessageNonce) -> Option<tokio::time::Instant> {
+        self.active_requests_nonce_mapping.deadline(nonce)
+    }
+}
